@@ -23,6 +23,9 @@ import TFV.Properties.Src.Sampling
 #print axioms TFV.SrcTie.C11_src_argsort_k
 #print axioms TFV.SrcTie.C11_src_binary_search_first_ge
 #print axioms TFV.SrcTie.C11_src_tournament_selection
+#print axioms TFV.SrcTie.C11_src_proportional_selection
+#print axioms TFV.SrcTie.C11_src_rank_selection
+#print axioms TFV.SrcTie.C11_src_tournament_selection_distinct
 #print axioms TFV.SrcTie.C11_src_sattolo_shuffle
 #print axioms TFV.SrcTie.C11_src_random_sample_norepl
 #print axioms TFV.SrcTie.C11_src_random_sample_repl
